@@ -332,6 +332,8 @@ class CompilerArgs(T.MutableSequence[str]):
         self.flush_pre_post()
         # Only allow equality checks against other CompilerArgs and lists instances
         if isinstance(other, CompilerArgs):
+            # the other operand may have pending additions too
+            other.flush_pre_post()
             return self.compiler == other.compiler and self._container == other._container
         elif isinstance(other, list):
             return self._container == other
